@@ -602,11 +602,11 @@ class SpatialInertia(SMUserList):
         """
 
         if isinstance(right, SpatialAcceleration):
-            return SpatialForce(left.A @ right.A)  # F = ma
+            return SpatialForce([left.A @ x for x in right.data])  # F = ma
         elif isinstance(right, SpatialVelocity):
             # crf(v(i).vw)*model.I(i).I*v(i).vw;
             # v = Wrench( a.cross() * I.I * a.vw );
-            return SpatialMomentum(left.A @ right.A)   # M = mv
+            return SpatialMomentum([left.A @ x for x in right.data])   # M = mv
         else:
             raise TypeError('bad postmultiply operands for Inertia *')
 
